@@ -55,14 +55,20 @@ try:
     elif mode == 'api-pybind-history':
         from gtwrap.pybind_wrapper import PybindWrapper
         o = job['options']
-        w = PybindWrapper(module_name=o['module_name'], top_module_namespaces=o['top'],
-                          use_boost_serialization=o['boost'], ignore_classes=o['ignore'],
-                          module_template=open(job['template']).read())
-        for text in job['history']:
+        def make():
+            return PybindWrapper(module_name=o['module_name'], top_module_namespaces=o['top'],
+                                 use_boost_serialization=o['boost'], ignore_classes=o['ignore'],
+                                 module_template=open(job['template']).read())
+        w = make()
+        fresh = list(job.get('fresh', []))
+        for i, text in enumerate(job['history']):
             try:
-                w.wrap_file(text, module_name='earlier', submodules=[])
+                (make() if i < len(fresh) and fresh[i] else w).wrap_file(
+                    text, module_name='earlier', submodules=[])
             except Exception:
                 pass
+        if job.get('final_fresh'):
+            w = make()
         w.wrap(list(job['sources']), job['out'])
     elif mode == 'api-matlab':
         from gtwrap.matlab_wrapper import MatlabWrapper
